@@ -8,8 +8,8 @@
   :1374, `parse_slice` :1474) on the sub-language the printer emits.
 
   Names are already resolved to strings (what `PrintEnv.get_name` returns: `ExoModel.Print` (a)).
-  Expressions are the `PExpr` of `ExoModel.Print` (b); their printer (`ppT`/`ppS`), tokens (`Tok`)
-  and parser (`parseExpr`) are reused unchanged.
+  Expressions are the `XExpr` of `ExoModel.PrintExprX`: those of `ExoModel.Print` (b) plus
+  configuration reads `Cfg.f` and calls `f(a, …)` (extern calls, `stride(x, d)`).
 
   * `PStmt`/`PProc`        what the surface syntax has
   * `ppStmt`/`ppBlock`     `_print_stmt`/`_print_block` as TOKEN lines (`Line` = column + tokens);
@@ -34,7 +34,7 @@
 
   Everything is a total function over lists; no Mathlib.
 -/
-import ExoModel.Print
+import ExoModel.PrintExprX
 
 namespace Exo.PrintStmt
 open Exo Exo.Print
@@ -57,13 +57,13 @@ def Ty.ofName (s : String) : Option Ty := Ty.all.find? (fun t => t.name == s)
 
 /-- `LoopIR.w_access` -/
 inductive WAcc
-  | pt (e : PExpr)
-  | iv (lo hi : PExpr)
+  | pt (e : XExpr)
+  | iv (lo hi : XExpr)
 deriving Repr, Inhabited
 
 /-- an argument of a call: an expression or a window expression `x[lo:hi, pt, …]` -/
 inductive PArg
-  | e (e : PExpr)
+  | e (e : XExpr)
   | win (x : String) (accs : List WAcc)
 deriving Repr, Inhabited
 
@@ -71,15 +71,15 @@ deriving Repr, Inhabited
     extern calls and config reads inside expressions are not covered.) -/
 inductive PStmt where
   | pass
-  | assign (x : String) (idx : List PExpr) (rhs : PExpr)
-  | reduce (x : String) (idx : List PExpr) (rhs : PExpr)
-  | writeCfg (cfg fld : String) (rhs : PExpr)
+  | assign (x : String) (idx : List XExpr) (rhs : XExpr)
+  | reduce (x : String) (idx : List XExpr) (rhs : XExpr)
+  | writeCfg (cfg fld : String) (rhs : XExpr)
   /-- `x : T[shape] @MEM`; `shape = []` is a scalar; `mem = none` prints no annotation -/
-  | alloc (x : String) (ty : Ty) (shape : List PExpr) (mem : Option String)
+  | alloc (x : String) (ty : Ty) (shape : List XExpr) (mem : Option String)
   /-- `WindowStmt`: `w = x[accs]` -/
   | window (w x : String) (accs : List WAcc)
-  | loop (par : Bool) (i : String) (lo hi : PExpr) (body : List PStmt)
-  | ite (c : PExpr) (body orelse : List PStmt)
+  | loop (par : Bool) (i : String) (lo hi : XExpr) (body : List PStmt)
+  | ite (c : XExpr) (body orelse : List PStmt)
   | call (f : String) (args : List PArg)
 deriving Repr, Inhabited
 
@@ -97,7 +97,7 @@ inductive FnTy
   | index
   | ctrl (k : CtrlK) (mem : Option String)
   /-- scalar (`shape = []`), tensor, or window (`isWin`, printed `[T][shape]`) -/
-  | num (ty : Ty) (shape : List PExpr) (isWin : Bool) (mem : Option String)
+  | num (ty : Ty) (shape : List XExpr) (isWin : Bool) (mem : Option String)
 deriving Repr, Inhabited
 
 structure PFnArg where
@@ -105,21 +105,16 @@ structure PFnArg where
   ty : FnTy
 deriving Repr, Inhabited
 
-/-- a procedure without assertions and without `@instr` -/
+/-- a procedure (the `# @instr` comment is not syntax and is not represented) -/
 structure PProc where
   name : String
   args : List PFnArg
+  /-- `p.preds`: printed as `assert e` lines directly after the header -/
+  preds : List XExpr
   body : List PStmt
 deriving Repr, Inhabited
 
 /-! ## tokens and lines -/
-
-/-- tokens of a statement line: the expression tokens plus the statement punctuation/keywords -/
-inductive STok
-  | t (a : Tok)
-  | colon | assign | pluseq | at | dot
-  | kwFor | kwIn | kwIf | kwElse | kwPass | kwDef
-deriving Repr, DecidableEq, Inhabited
 
 /-- a logical line: column of its first token and its tokens -/
 structure Line where
@@ -127,14 +122,11 @@ structure Line where
   toks : List STok
 deriving Repr, DecidableEq, Inhabited
 
-/-- embed expression tokens -/
-def tt (ts : List Tok) : List STok := ts.map .t
-
 /-! ## printer, as token lines -/
 
 def ppAccT : WAcc → List STok
-  | .pt e => tt (ppT 0 e)
-  | .iv lo hi => tt (ppT 0 lo) ++ .colon :: tt (ppT 0 hi)
+  | .pt e => (ppX 0 e)
+  | .iv lo hi => (ppX 0 lo) ++ .colon :: (ppX 0 hi)
 
 /-- `", ".join(...)` after the first access -/
 def ppAccsTailT : List WAcc → List STok
@@ -150,7 +142,7 @@ def ppWinT (x : String) (accs : List WAcc) : List STok :=
   .t (.id x) :: .t .lb :: (ppAccsT accs ++ [.t .rb])
 
 def ppArgT : PArg → List STok
-  | .e e => tt (ppT 0 e)
+  | .e e => (ppX 0 e)
   | .win x accs => ppWinT x accs
 
 def ppArgsTailT : List PArg → List STok
@@ -168,22 +160,22 @@ def ppMemT : Option String → List STok
 
 def loopKw (par : Bool) : String := if par then "par" else "seq"
 
-def forHeadT (par : Bool) (i : String) (lo hi : PExpr) : List STok :=
+def forHeadT (par : Bool) (i : String) (lo hi : XExpr) : List STok :=
   .kwFor :: .t (.id i) :: .kwIn :: .t (.id (loopKw par)) :: .t .lp ::
-    (tt (ppT 0 lo) ++ .t .comma :: (tt (ppT 0 hi) ++ [.t .rp, .colon]))
+    ((ppX 0 lo) ++ .t .comma :: ((ppX 0 hi) ++ [.t .rp, .colon]))
 
-def ifHeadT (c : PExpr) : List STok := .kwIf :: (tt (ppT 0 c) ++ [.colon])
+def ifHeadT (c : XExpr) : List STok := .kwIf :: ((ppX 0 c) ++ [.colon])
 
 def elseT : List STok := [.kwElse, .colon]
 
 /-- the tokens of the one-line statements -/
 def simpleT : PStmt → List STok
   | .pass => [.kwPass]
-  | .assign x idx rhs => tt (ppT 0 (.var x idx)) ++ .assign :: tt (ppT 0 rhs)
-  | .reduce x idx rhs => tt (ppT 0 (.var x idx)) ++ .pluseq :: tt (ppT 0 rhs)
-  | .writeCfg c f rhs => .t (.id c) :: .dot :: .t (.id f) :: .assign :: tt (ppT 0 rhs)
+  | .assign x idx rhs => (ppX 0 (.var x idx)) ++ .assign :: (ppX 0 rhs)
+  | .reduce x idx rhs => (ppX 0 (.var x idx)) ++ .pluseq :: (ppX 0 rhs)
+  | .writeCfg c f rhs => .t (.id c) :: .dot :: .t (.id f) :: .assign :: (ppX 0 rhs)
   | .alloc x ty shape mem =>
-    .t (.id x) :: .colon :: (tt (ppT 0 (.var ty.name shape)) ++ ppMemT mem)
+    .t (.id x) :: .colon :: ((ppX 0 (.var ty.name shape)) ++ ppMemT mem)
   | .window w x accs => .t (.id w) :: .assign :: ppWinT x accs
   | .call f args => .t (.id f) :: .t .lp :: (ppArgsT args ++ [.t .rp])
   | .loop par i lo hi _ => forHeadT par i lo hi
@@ -216,11 +208,11 @@ def fnTyT : FnTy → List STok
   | .size => [.t (.id "size")]
   | .index => [.t (.id "index")]
   | .ctrl k mem => .t (.id k.name) :: ppMemT mem
-  | .num ty shape false mem => tt (ppT 0 (.var ty.name shape)) ++ ppMemT mem
+  | .num ty shape false mem => (ppX 0 (.var ty.name shape)) ++ ppMemT mem
   | .num ty [] true mem => .t .lb :: .t (.id ty.name) :: .t .rb :: .t .lb :: .t .rb :: ppMemT mem
   | .num ty (i :: is) true mem =>
     .t .lb :: .t (.id ty.name) :: .t .rb :: .t .lb ::
-      (tt (ppT 0 i ++ (ppTailT is ++ [.rb])) ++ ppMemT mem)
+      ((ppX 0 i ++ (ppTailX is ++ [.t .rb])) ++ ppMemT mem)
 
 /-- `_print_fnarg` -/
 def fnArgT (a : PFnArg) : List STok := .t (.id a.name) :: .colon :: fnTyT a.ty
@@ -236,9 +228,14 @@ def fnArgsT : List PFnArg → List STok
 def defHeadT (name : String) (args : List PFnArg) : List STok :=
   .kwDef :: .t (.id name) :: .t .lp :: (fnArgsT args ++ [.t .rp, .colon])
 
-/-- `_print_proc` (no `@instr` comment, no assertions) -/
+/-- `lines.append(f"{indent}assert {_print_expr(pred, env)}")` -/
+def ppAsserts (ind : Nat) : List XExpr → List Line
+  | [] => []
+  | e :: es => ⟨ind, .kwAssert :: ppX 0 e⟩ :: ppAsserts ind es
+
+/-- `_print_proc` (without the `# @instr` comment lines) -/
 def ppProc (w ind : Nat) (p : PProc) : List Line :=
-  ⟨ind, defHeadT p.name p.args⟩ :: ppBlock w (ind + w) p.body
+  ⟨ind, defHeadT p.name p.args⟩ :: (ppAsserts (ind + w) p.preds ++ ppBlock w (ind + w) p.body)
 
 /-! ## printer, as text -/
 
@@ -266,8 +263,8 @@ def ppMemS (sty : Style) : Option String → String
     | .fmt => " @ " ++ m
 
 def ppAccS : WAcc → String
-  | .pt e => ppS 0 e
-  | .iv lo hi => ppS 0 lo ++ ":" ++ ppS 0 hi
+  | .pt e => ppXS 0 e
+  | .iv lo hi => ppXS 0 lo ++ ":" ++ ppXS 0 hi
 
 def ppAccsTailS : List WAcc → String
   | [] => ""
@@ -280,7 +277,7 @@ def ppAccsS : List WAcc → String
 def ppWinS (x : String) (accs : List WAcc) : String := x ++ "[" ++ ppAccsS accs ++ "]"
 
 def ppArgS : PArg → String
-  | .e e => ppS 0 e
+  | .e e => ppXS 0 e
   | .win x accs => ppWinS x accs
 
 def ppArgsTailS : List PArg → String
@@ -296,15 +293,15 @@ def blanks (n : Nat) : String := String.ofList (List.replicate n ' ')
 /-- the text of the first line of a statement, without indentation -/
 def simpleS (sty : Style) : PStmt → String
   | .pass => "pass"
-  | .assign x idx rhs => ppS 0 (.var x idx) ++ " = " ++ ppS 0 rhs
-  | .reduce x idx rhs => ppS 0 (.var x idx) ++ " += " ++ ppS 0 rhs
-  | .writeCfg c f rhs => c ++ "." ++ f ++ " = " ++ ppS 0 rhs
-  | .alloc x ty shape mem => x ++ sty.colon ++ ppS 0 (.var ty.name shape) ++ ppMemS sty mem
+  | .assign x idx rhs => ppXS 0 (.var x idx) ++ " = " ++ ppXS 0 rhs
+  | .reduce x idx rhs => ppXS 0 (.var x idx) ++ " += " ++ ppXS 0 rhs
+  | .writeCfg c f rhs => c ++ "." ++ f ++ " = " ++ ppXS 0 rhs
+  | .alloc x ty shape mem => x ++ sty.colon ++ ppXS 0 (.var ty.name shape) ++ ppMemS sty mem
   | .window w x accs => w ++ " = " ++ ppWinS x accs
   | .call f args => f ++ "(" ++ ppArgsS args ++ ")"
   | .loop par i lo hi _ =>
-    "for " ++ i ++ " in " ++ loopKw par ++ "(" ++ ppS 0 lo ++ ", " ++ ppS 0 hi ++ "):"
-  | .ite c _ _ => "if " ++ ppS 0 c ++ ":"
+    "for " ++ i ++ " in " ++ loopKw par ++ "(" ++ ppXS 0 lo ++ ", " ++ ppXS 0 hi ++ "):"
+  | .ite c _ _ => "if " ++ ppXS 0 c ++ ":"
 
 mutual
 def ppStmtS (sty : Style) : Nat → PStmt → List String
@@ -330,10 +327,10 @@ def fnTyS (sty : Style) : FnTy → String
   | .size => "size"
   | .index => "index"
   | .ctrl k mem => k.name ++ ppMemS sty mem
-  | .num ty shape false mem => ppS 0 (.var ty.name shape) ++ ppMemS sty mem
+  | .num ty shape false mem => ppXS 0 (.var ty.name shape) ++ ppMemS sty mem
   | .num ty [] true mem => "[" ++ ty.name ++ "][]" ++ ppMemS sty mem
   | .num ty (i :: is) true mem =>
-    "[" ++ ty.name ++ "][" ++ ppS 0 i ++ ppTailS is ++ "]" ++ ppMemS sty mem
+    "[" ++ ty.name ++ "][" ++ ppXS 0 i ++ ppTailXS is ++ "]" ++ ppMemS sty mem
 
 def fnArgS (sty : Style) (a : PFnArg) : String := a.name ++ sty.colon ++ fnTyS sty a.ty
 
@@ -348,21 +345,26 @@ def fnArgsS (sty : Style) : List PFnArg → String
 def defHeadS (sty : Style) (name : String) (args : List PFnArg) : String :=
   "def " ++ name ++ "(" ++ fnArgsS sty args ++ "):"
 
+def ppAssertsS (ind : Nat) : List XExpr → List String
+  | [] => []
+  | e :: es => (blanks ind ++ "assert " ++ ppXS 0 e) :: ppAssertsS ind es
+
 def ppProcS (sty : Style) (ind : Nat) (p : PProc) : List String :=
-  (blanks ind ++ defHeadS sty p.name p.args) :: ppBlockS sty (ind + sty.step) p.body
+  (blanks ind ++ defHeadS sty p.name p.args) ::
+    (ppAssertsS (ind + sty.step) p.preds ++ ppBlockS sty (ind + sty.step) p.body)
 
 /-! ## what reading back yields: the expression normalisation inside statements -/
 
 def normAcc : WAcc → WAcc
-  | .pt e => .pt (norm e)
-  | .iv lo hi => .iv (norm lo) (norm hi)
+  | .pt e => .pt (normX e)
+  | .iv lo hi => .iv (normX lo) (normX hi)
 
 def normAccs : List WAcc → List WAcc
   | [] => []
   | a :: as => normAcc a :: normAccs as
 
 def normArg : PArg → PArg
-  | .e e => .e (norm e)
+  | .e e => .e (normX e)
   | .win x accs => .win x (normAccs accs)
 
 def normArgs : List PArg → List PArg
@@ -372,13 +374,13 @@ def normArgs : List PArg → List PArg
 mutual
 def normStmt : PStmt → PStmt
   | .pass => .pass
-  | .assign x idx rhs => .assign x (normL idx) (norm rhs)
-  | .reduce x idx rhs => .reduce x (normL idx) (norm rhs)
-  | .writeCfg c f rhs => .writeCfg c f (norm rhs)
-  | .alloc x ty shape mem => .alloc x ty (normL shape) mem
+  | .assign x idx rhs => .assign x (normXL idx) (normX rhs)
+  | .reduce x idx rhs => .reduce x (normXL idx) (normX rhs)
+  | .writeCfg c f rhs => .writeCfg c f (normX rhs)
+  | .alloc x ty shape mem => .alloc x ty (normXL shape) mem
   | .window w x accs => .window w x (normAccs accs)
-  | .loop par i lo hi body => .loop par i (norm lo) (norm hi) (normS body)
-  | .ite c body orelse => .ite (norm c) (normS body) (normS orelse)
+  | .loop par i lo hi body => .loop par i (normX lo) (normX hi) (normS body)
+  | .ite c body orelse => .ite (normX c) (normS body) (normS orelse)
   | .call f args => .call f (normArgs args)
 def normS : List PStmt → List PStmt
   | [] => []
@@ -386,31 +388,24 @@ def normS : List PStmt → List PStmt
 end
 
 def normFnTy : FnTy → FnTy
-  | .num ty shape isWin mem => .num ty (normL shape) isWin mem
+  | .num ty shape isWin mem => .num ty (normXL shape) isWin mem
   | t => t
 
 def normFnArgs : List PFnArg → List PFnArg
   | [] => []
   | a :: as => ⟨a.name, normFnTy a.ty⟩ :: normFnArgs as
 
-def normProc (p : PProc) : PProc := ⟨p.name, normFnArgs p.args, normS p.body⟩
+def normProc (p : PProc) : PProc := ⟨p.name, normFnArgs p.args, normXL p.preds, normS p.body⟩
 
 /-! ## parser -/
 
-/-- the maximal run of expression tokens at the front of a line, and what follows it -/
-def spanT : List STok → List Tok × List STok
-  | .t a :: r => (a :: (spanT r).1, (spanT r).2)
-  | r => ([], r)
-
 /-- one expression at the front of the tokens (CPython + `parse_expr`): the expression parser of
-    `ExoModel.Print` on the run of expression tokens; what it leaves is given back -/
-def parseES (ts : List STok) : Option (PExpr × List STok) :=
-  match parseExpr (fuelFor (spanT ts).1) 0 (spanT ts).1 with
-  | some (e, rest) => some (e, tt rest ++ (spanT ts).2)
-  | none => none
+    `ExoModel.PrintExprX`; it stops at the first token that cannot continue the expression
+    (`:`, `=`, `+=`, `@`, a keyword, an unmatched `)`/`]`, `,`) and gives the rest back -/
+def parseES (ts : List STok) : Option (XExpr × List STok) := parseExprX (fuelX ts) 0 ts
 
 /-- an expression that is the whole remainder of the line -/
-def parseFull (ts : List STok) : Option PExpr :=
+def parseFull (ts : List STok) : Option XExpr :=
   match parseES ts with
   | some (e, []) => some e
   | _ => none
@@ -538,7 +533,7 @@ def loopMode (m : String) : Option Bool :=
   if m == "seq" then some false else if m == "par" then some true else none
 
 /-- `for i in seq(lo, hi):` / `par` (`parse_loop_cond`) -/
-def parseForHead (ts : List STok) : Option (Bool × String × PExpr × PExpr) :=
+def parseForHead (ts : List STok) : Option (Bool × String × XExpr × XExpr) :=
   match ts with
   | .kwFor :: .t (.id i) :: .kwIn :: .t (.id m) :: .t .lp :: r =>
     match loopMode m with
@@ -552,7 +547,7 @@ def parseForHead (ts : List STok) : Option (Bool × String × PExpr × PExpr) :=
       | _ => none
   | _ => none
 
-def parseIfHead (ts : List STok) : Option PExpr :=
+def parseIfHead (ts : List STok) : Option XExpr :=
   match ts with
   | .kwIf :: r =>
     match parseES r with
@@ -688,7 +683,26 @@ def parseDefHead (ts : List STok) : Option (String × List PFnArg) :=
       | none => none
   | _ => none
 
-/-- a complete procedure: header line, then its body (all remaining lines) -/
+/-- the `assert e` lines at the front of the body block (`parse_fdef`: "parse out any assertions
+    at the front of the statement block"; an assertion with a message is rejected) -/
+def parseAsserts (col : Nat) : List Line → Option (List XExpr × List Line)
+  | [] => some ([], [])
+  | l :: ls =>
+    if l.ind == col then
+      match l.toks with
+      | .kwAssert :: r =>
+        match parseFull r with
+        | none => none
+        | some e =>
+          match parseAsserts col ls with
+          | none => none
+          | some (es, rest) => some (e :: es, rest)
+      | _ => some ([], l :: ls)
+    else some ([], l :: ls)
+
+/-- a complete procedure: header line, then its (non-empty, deeper) block: the leading `assert`
+    lines, then statements — all remaining lines.  An `assert` anywhere else is not a statement
+    (`parseSimple` has no such form: "predicate assert should happen at the beginning"). -/
 def parseProc (ls : List Line) : Option PProc :=
   match ls with
   | [] => none
@@ -696,9 +710,17 @@ def parseProc (ls : List Line) : Option PProc :=
     match parseDefHead l.toks with
     | none => none
     | some (name, args) =>
-      match bodyWith (parseBlock (blockFuel rest)) l.ind rest with
-      | some (body, []) => some ⟨name, args, body⟩
-      | _ => none
+      match rest with
+      | [] => none
+      | b :: _ =>
+        if l.ind < b.ind then
+          match parseAsserts b.ind rest with
+          | none => none
+          | some (preds, rest') =>
+            match parseBlock (blockFuel rest') b.ind rest' with
+            | some (body, []) => some ⟨name, args, preds, body⟩
+            | _ => none
+        else none
 
 /-! ### lexer of a text line (driver and correspondence only; the theorems are on tokens) -/
 
@@ -706,6 +728,7 @@ def keywordTok (w : String) : Option STok :=
   if w == "for" then some .kwFor else if w == "in" then some .kwIn
   else if w == "if" then some .kwIf else if w == "else" then some .kwElse
   else if w == "pass" then some .kwPass else if w == "def" then some .kwDef
+  else if w == "assert" then some .kwAssert
   else none
 
 def wordSTok (w : String) : STok :=
